@@ -1,1 +1,68 @@
-//! (stub)
+//! Independent reference-span arithmetic (one-based closed intervals), written from the format
+//! specifications, not from noodles.
+//!
+//! * SAM/BAM: a record placed at `POS` covers `[POS, POS + max(1, Σ len(op)) − 1]` where the sum
+//!   runs over the CIGAR operations that consume the reference: `M D N = X` (SAM spec §1.4, table of
+//!   CIGAR operations, column "consumes reference"). A record without reference-consuming
+//!   operations (no CIGAR, or only `I S H P`) is treated as covering one base — this is the
+//!   convention of the index section (§5.1.1 / `bam_endpos`): "unmapped reads / zero-length
+//!   alignments are treated as 1 bp long".
+//! * VCF/BCF before fileformat 4.5: `[POS, END]` if INFO `END` is present, else
+//!   `[POS, POS + len(REF) − 1]` (VCF 4.2–4.4 §1.6.1 INFO END: "End reference position (1-based),
+//!   indicating the variant spans positions POS–END on reference/contig CHROM").
+//!
+//! VCF 4.5 (END deprecated, SVLEN / FORMAT LEN arithmetic) is deliberately not encoded here.
+
+/// CIGAR operation kinds by their SAM letter.
+#[derive(Clone, Copy, Debug, PartialEq, Eq)]
+pub enum Op {
+    M,
+    I,
+    D,
+    N,
+    S,
+    H,
+    P,
+    Eq,
+    X,
+}
+
+impl Op {
+    pub fn consumes_reference(self) -> bool {
+        matches!(self, Op::M | Op::D | Op::N | Op::Eq | Op::X)
+    }
+    pub fn consumes_query(self) -> bool {
+        matches!(self, Op::M | Op::I | Op::S | Op::Eq | Op::X)
+    }
+}
+
+/// Reference length of a CIGAR.
+pub fn cigar_reference_len(ops: &[(Op, u64)]) -> u64 {
+    ops.iter().filter(|(k, _)| k.consumes_reference()).map(|(_, n)| *n).sum()
+}
+
+/// Query (read) length of a CIGAR.
+pub fn cigar_query_len(ops: &[(Op, u64)]) -> u64 {
+    ops.iter().filter(|(k, _)| k.consumes_query()).map(|(_, n)| *n).sum()
+}
+
+/// One-based closed span of an alignment placed at `pos`.
+pub fn bam_span(pos: u64, ops: &[(Op, u64)]) -> (u64, u64) {
+    let len = cigar_reference_len(ops).max(1);
+    (pos, pos + len - 1)
+}
+
+/// One-based closed span of a variant (fileformat < 4.5).
+pub fn vcf_span(pos: u64, ref_len: u64, info_end: Option<u64>) -> (u64, u64) {
+    match info_end {
+        Some(e) => (pos, e),
+        None => (pos, pos + ref_len.max(1) - 1),
+    }
+}
+
+/// Closed-interval intersection with an optionally unbounded region.
+pub fn intersects(span: (u64, u64), region: (Option<u64>, Option<u64>)) -> bool {
+    let rs = region.0.unwrap_or(1);
+    let re = region.1.unwrap_or(u64::MAX);
+    span.0 <= re && rs <= span.1
+}
